@@ -383,6 +383,20 @@ class NonSeekableReader:
         return self._b.read(n)
 
 
+class ShortReadBytesIO(io.BytesIO):
+    """A seekable stream whose read(n) returns at most `cap` bytes (like a pipe-backed or
+    network-backed file object): always allowed by the io protocol."""
+
+    def __init__(self, data, cap=2):
+        super().__init__(data)
+        self._cap = max(1, cap)
+
+    def read(self, n=-1):
+        if n is None or n < 0:
+            return super().read(n)
+        return super().read(min(n, self._cap))
+
+
 class NonSeekableWriter:
     def __init__(self):
         self.chunks = []
